@@ -2,7 +2,7 @@
 PROP = dict(
     modules=["CG.Props.C19", "CG.Props.Genesis", "CG.Props.HashText"],
     required_theorems=["C19_serialisation_80", "C19_serialisation_injective", "C19_ord_numeric", "C19_target_value",
-                       "C19_target_total", "C19_validate_eq_spec", "C19_validate_iff", "C19_validate_no_panic",
+                       "C19_target_total", "C19_validate_eq_spec", "C19_validate_iff", "C19_validate_mono_timestamp", "C19_validate_mono_hash", "C19_validate_no_panic",
                        "C19_median_is_sorted_middle", "C19_genesis_blocks_consistent", "C19_hash_text_roundtrip", "C19_hash_text_length", "C19_hash_text_decode_total", "C19_hash_text_is_le_number"],
     rule="c19.hexenc / c19.hexdec (Hash256::encode / decode): random and boundary hashes; their text in lower, upper and mixed case; one "
          "character replaced by a non-digit (ASCII neighbours of the digit ranges, whitespace, 2-4 byte UTF-8 characters, a full-width "
